@@ -31,6 +31,14 @@ func RunReplay(funcs map[string]func()) {
 		fmt.Println("ZZ-ERROR", err)
 		return
 	}
+	// the environment the engine models: no user or system inputrc (INPUTRC names an empty
+	// file, which the library reads instead of ~/.inputrc and /etc/inputrc), TERM=xterm
+	if f, err := os.CreateTemp("", "zz-empty-inputrc-"); err == nil {
+		f.Close()
+		os.Setenv("INPUTRC", f.Name())
+		defer os.Remove(f.Name())
+	}
+	os.Setenv("TERM", "xterm")
 	for i := range vecs {
 		v := &vecs[i]
 		f := funcs[v.Harness]
